@@ -131,6 +131,12 @@ def build_jobs(tier, seed, stats, want_ops=True):
                         dj = b.doc(proj.proj(dprev))
                         steps.ev_apply(b, dprev, dj, st, tag="op:" + name_)
         jobs.append((b, f"T random[{name}]"))
+    # ---- T: every Step.apply the repository's own test-suite performs (tracer plug-in, no source change)
+    from .. import suitetrace
+    data, last = suitetrace.record()
+    stats.notes.append(f"repository test-suite under the tracer: {last}")
+    for bs in suitetrace.batches(data, {"Apply", "StepMap"}):
+        jobs.append((bs, f"T testsuite[{bs.schema_js['name']}]"))
     return jobs
 
 
